@@ -11,6 +11,8 @@ From CV Require Import Frame.FramePackedProofs.
 From CV Require Import Frame.FrameSim.
 From CV Require Import Frame.FramePackedThms.
 From CV Require Import Frame.FramePackedCut.
+From CV Require Import Frame.FrameReaders.
+From CV Require Import Frame.FrameReadersProofs.
 From CV Require Import Base.GoSem.
 From CV Require Import Gen.GoArith.
 From CV Require Import Frame.FrameGoAgree.
@@ -108,6 +110,44 @@ Theorem C14_read_full_chunking : forall cs fin need got,
   flat (read_full_loop cs fin need got) = read_full_flat (concat cs) fin need got.
 Proof. exact read_full_loop_flat. Qed.
 Print Assumptions C14_read_full_chunking.
+
+(* ---------------------------------------------------------------- every reader behaviour the io.Reader contract permits *)
+
+(* io.ReadFull over a reader that may also deliver its final io.EOF together with the last bytes
+   ([tog]) and make (0, nil) reads (empty chunks): outcome and remaining bytes are a function of
+   the concatenated stream only *)
+Theorem C14_read_full_any_reader : forall cs tog need got,
+  (fst (xread_full_loop cs EOF tog need got),
+   concat (x_chunks (snd (xread_full_loop cs EOF tog need got))),
+   x_final (snd (xread_full_loop cs EOF tog need got)))
+  = read_full_flat (concat cs) EOF need got
+  /\ x_tog (snd (xread_full_loop cs EOF tog need got)) = tog.
+Proof. exact xread_full_loop_flat. Qed.
+Print Assumptions C14_read_full_any_reader.
+
+(* C14_decode_encode_stream / C14_cut_is_error for all of these behaviours: any chunking, empty
+   reads, io.EOF with the last bytes or by a separate read *)
+Theorem C14_decode_encode_stream_any_reader : forall msgs frames cs tog hc bc ru mx,
+  max_ok mx ->
+  Forall2 (fun m f => encode true m = Ok f) msgs frames ->
+  Forall (fun m => len m <= max_stream_segments) msgs ->
+  Forall (fun f => len f <= eff_max mx) frames ->
+  concat cs = concat frames ->
+  exists st' outs,
+    gdecode_n xread_full (mkD (mkX cs EOF tog) hc bc ru mx) (S (length msgs)) = (st', outs)
+    /\ map fst outs = map DMsg msgs ++ [DEof].
+Proof. exact decode_encode_stream_any_reader. Qed.
+Print Assumptions C14_decode_encode_stream_any_reader.
+
+Theorem C14_cut_is_error_any_reader : forall msgs m q tail cs tog hc bc ru mx,
+  max_ok mx -> Forall (frame_ok mx) msgs -> frame_ok mx m ->
+  frame m = q ++ tail -> q <> [] -> tail <> [] ->
+  concat cs = concat (map frame msgs) ++ q ->
+  exists st' outs e,
+    gdecode_n xread_full (mkD (mkX cs EOF tog) hc bc ru mx) (S (length msgs)) = (st', outs)
+    /\ map fst outs = map DMsg msgs ++ [DErr e] /\ (e = EReadHeader \/ e = EReadSegs).
+Proof. exact cut_is_error_any_reader. Qed.
+Print Assumptions C14_cut_is_error_any_reader.
 
 (* ---------------------------------------------------------------- packed paths (C13 composed with C14) *)
 
